@@ -6,7 +6,7 @@ class C29(Prop):
     check_mod = "C29"
     drivers = [dict(pkg="internal/playback", test="TestVerifC29", timeout=900)]
     n_quick = 180
-    n_thorough = 12000
+    n_thorough = 6000
     shard = 18
     ready = True
     manifest = dict(
